@@ -115,3 +115,62 @@ func recoversIntoError(p *an.Prog, fn *ssa.Function, call ssa.CallInstruction) (
 	}
 	return found, false
 }
+
+// decodeHooks implements C15.8.
+//
+// Library summary (mapstructure v1.1.2, Decoder.decode → decodeInt & co.): the
+// value a DecodeHook returns replaces the input; a nil value with a nil error
+// reaches reflect.Value.Type on the zero Value and panics for every
+// non-interface target. A hook written in the module must therefore never
+// return (nil, nil).
+func decodeHooks(c *an.Ctx, rule string) {
+	p := c.P
+	isHook := func(sig *types.Signature) bool {
+		if sig.Params().Len() != 3 || sig.Results().Len() != 2 {
+			return false
+		}
+		if _, ok := sig.Params().At(2).Type().Underlying().(*types.Interface); !ok {
+			return false
+		}
+		if _, ok := sig.Results().At(0).Type().Underlying().(*types.Interface); !ok {
+			return false
+		}
+		if !an.IsErrorType(sig.Results().At(1).Type()) {
+			return false
+		}
+		for i := 0; i < 2; i++ {
+			t := sig.Params().At(i).Type().String()
+			if t != "reflect.Type" && t != "reflect.Kind" {
+				return false
+			}
+		}
+		return true
+	}
+	n := 0
+	for _, fn := range p.Funcs {
+		for _, f := range []*ssa.Function{fn} {
+			if !isHook(f.Signature) || f.Blocks == nil {
+				continue
+			}
+			n++
+			good := true
+			for _, ret := range an.Returns(f) {
+				if !an.IsNilConst(an.RetVal(ret, 1)) {
+					continue
+				}
+				for _, s := range an.Sources(an.RetVal(ret, 0)) {
+					if an.IsNilConst(s) {
+						good = false
+						c.Bad(rule, an.Short(f)+":return(nil, nil)", ret.Pos(), "the decode hook %s can return a nil value with a nil error: mapstructure then calls reflect.Value.Type on the zero Value and the loader panics for every input that takes this path", an.Short(f))
+					}
+				}
+			}
+			if good {
+				c.OK(rule, an.Short(f)+":returns", f.Pos(), "the decode hook never returns (nil, nil)")
+			}
+		}
+	}
+	if n == 0 {
+		c.OK(rule, "module:decode-hooks", token.NoPos, "no decode hook is defined in the module (the decoder uses mapstructure's own StringToTimeDurationHookFunc)")
+	}
+}
